@@ -9,6 +9,7 @@ matrix size, every stored row, every index list, every sweep count, every level 
 -/
 import Pyiga.Proofs.Relax
 import Pyiga.Proofs.RelaxMG
+import Pyiga.Proofs.LocalMG
 
 namespace Pyiga.Props.C11
 open Pyiga.Relax Finset
@@ -306,5 +307,79 @@ theorem driver_stop_zero_residual (z : Bool) (step : V → V) (conv : V → Bool
   constructor <;> intro h <;> simp [iterativeSolveNow, h]
 
 end
+
+/-! ## the transliterated `local_mg_step` itself (`Model/LocalMG.lean`, executed by the driver)
+
+`localMgStep S` is `mgStep` with the concrete ingredients of `solvers.local_mg_step`: dense views
+of the Galerkin matrices `As[lv]`, the prolongators, Gauss-Seidel sweeps of the modelled CSR kernel
+over `lv_inds[lv]` in the prescribed directions, the `exact` subspace correction and the level-0
+solve (direct solvers as the parameter `subSolve` with the contract `A[ind,ind]·solve(rhs) = rhs`). -/
+
+section concrete
+variable {K : Type} [Field K] [LinearOrder K] [IsStrictOrderedRing K]
+
+/-- **Energy monotonicity of `local_mg_step`** for every number of levels, each of the five
+smoothers, every `smooth_steps` and all smoothing sets: under `MGHyp` (level matrices symmetric
+positive semidefinite and Galerkin-related, positive diagonal on the smoothing sets, index lists
+without repetitions, solver contract) the cycle started from `0` has non-positive energy on every
+level and, on every level `≥ 1`, `E(step x) ≤ E(x)` for every iterate `x`. -/
+theorem local_mg_step_energy (S : MGSetup K) (h : MGHyp S) :
+    ∀ lv ≤ S.top, (∀ f, lvE S lv (localMgStepAt S lv 0 f) f ≤ 0) ∧
+      (1 ≤ lv → ∀ x f, lvE S lv (localMgStepAt S lv x f) f ≤ lvE S lv x f) :=
+  localMgStepAt_energy S h
+
+/-- the statement for the function `local_mg_step` returns (`numlevels ≥ 2`). -/
+theorem local_mg_step_energy_top (S : MGSetup K) (h : MGHyp S) (h1 : 1 ≤ S.top) (x f : LVec K) :
+    lvE S S.top (localMgStep S x f) f ≤ lvE S S.top x f :=
+  ((localMgStepAt_energy S h) S.top (le_refl _)).2 h1 x f
+
+end concrete
+
+section concreteFixed
+variable {K : Type} [Field K] [DecidableEq K]
+
+/-- **Fixed point of `local_mg_step`** (every level count, each of the five smoothers): if the
+smoothing sets contain no Dirichlet dof, non-Dirichlet coarse dofs are prolongated to non-Dirichlet
+fine dofs only and the direct solvers map `0` to `0` (`MGFixHyp`), then an iterate whose residual
+vanishes on all non-Dirichlet rows — in particular the exact discrete solution — is returned
+unchanged; from a zero start with such a right-hand side every level returns `0`. -/
+theorem local_mg_step_fixed_point (S : MGSetup K) (dir : ℕ → List ℕ) (h : MGFixHyp S dir)
+    (h1 : 1 ≤ S.top) (x f : LVec K) (hlen : x.d.length = S.size S.top)
+    (hres : ResZ S dir S.top x.d f.d) : (localMgStep S x f).d = x.d := by
+  have := ((localMgStepAt_fixed S dir h) S.top (le_refl _)).2 h1 x f hres
+  rw [localMgStep, this, padTo_of_length _ _ hlen]
+
+theorem local_mg_step_fixed_point_levels (S : MGSetup K) (dir : ℕ → List ℕ) (h : MGFixHyp S dir) :
+    ∀ lv ≤ S.top,
+      (∀ f : LVec K, (∀ j < S.size lv, j ∉ dir lv → f.d.getD j 0 = 0) →
+        (localMgStepAt S lv 0 f).d = List.replicate (S.size lv) 0) ∧
+      (1 ≤ lv → ∀ x f : LVec K, ResZ S dir lv x.d f.d →
+        (localMgStepAt S lv x f).d = padTo (S.size lv) x.d) :=
+  localMgStepAt_fixed S dir h
+
+end concreteFixed
+
+/-- non-vacuity / execution: two levels, `A = [[2,1],[1,2]]`, `P = [[1],[1]]`, `A_c = PᵀAP = [[6]]`,
+Gauss-Seidel (`gs`), one step: from `x = 0`, `f = (3,3)` the cycle returns `(35/32, 13/16)`;
+the exact solution `(1,1)` of `A x = f` is a fixed point. -/
+def exampleSetup : MGSetup ℚ :=
+  { top := 1, size := fun lv => if lv = 0 then 1 else 2,
+    A := fun lv i j => if lv = 0 then 6 else (if i = j then 2 else 1),
+    P := fun _ _ _ => 1, ind := fun lv => if lv = 0 then [0] else [0, 1],
+    smoother := 0, steps := 1, subSolve := fun _ rhs => rhs.map (· / 6) }
+
+example : (localMgStep exampleSetup ⟨[0, 0]⟩ ⟨[3, 3]⟩).d = [35 / 32, 13 / 16] ∧
+    (localMgStep exampleSetup ⟨[1, 1]⟩ ⟨[3, 3]⟩).d = [1, 1] := by decide +kernel
+
+example : ∀ i < 1, ∀ j < 1, exampleSetup.A 0 i j
+    = galerkinEntry (exampleSetup.size 1) (exampleSetup.A 1) (exampleSetup.P 0) i j := by decide +kernel
+
+example : MGFixHyp exampleSetup (fun _ => []) where
+  ind := by
+    intro lv hlv i hi
+    have : lv = 0 ∨ lv = 1 := by simp [exampleSetup] at hlv; omega
+    rcases this with rfl | rfl <;> simp [exampleSetup] at hi ⊢ <;> omega
+  prol := by intro lv _ j _ _ k _ hk; simp at hk
+  solve0 := by intro lv _ m; simp [exampleSetup]
 
 end Pyiga.Props.C11
